@@ -151,6 +151,9 @@ func runC14(c *progCase) ([]Violation, *progStats) {
 				e.S.Mark("commit")
 				err := tr.Commit(ctx)
 				trace = append(trace, fmt.Sprintf("Commit=%v", err))
+				if err != nil && (strings.Contains(err.Error(), "rollback errored") || strings.Contains(err.Error(), "rollback failed") || strings.Contains(err.Error(), "rollback error")) {
+					rollbackErrored = true // the injected failure hit the undo of the failed commit
+				}
 				switch state {
 				case "begun", "p1":
 					if err == nil {
@@ -189,6 +192,9 @@ func runC14(c *progCase) ([]Violation, *progStats) {
 				e.S.Mark("p1")
 				err := tr.GetPhasedTransaction().Phase1Commit(ctx)
 				trace = append(trace, fmt.Sprintf("Phase1Commit=%v", err))
+				if err != nil && (strings.Contains(err.Error(), "rollback errored") || strings.Contains(err.Error(), "rollback failed") || strings.Contains(err.Error(), "rollback error")) {
+					rollbackErrored = true // the injected failure hit the undo of the failed commit
+				}
 				switch state {
 				case "begun":
 					if err == nil {
@@ -209,6 +215,9 @@ func runC14(c *progCase) ([]Violation, *progStats) {
 				e.S.Mark("p2")
 				err := tr.GetPhasedTransaction().Phase2Commit(ctx)
 				trace = append(trace, fmt.Sprintf("Phase2Commit=%v", err))
+				if err != nil && (strings.Contains(err.Error(), "rollback errored") || strings.Contains(err.Error(), "rollback failed") || strings.Contains(err.Error(), "rollback error")) {
+					rollbackErrored = true // the injected failure hit the undo of the failed commit
+				}
 				switch state {
 				case "p1":
 					if err == nil {
